@@ -41,6 +41,11 @@ def run(p, report, tier):
     check_incremental_history(p, report)
     report.rule("R13.6", "the sliding window owns the samples it was given: what is extended into X_train_ is a copy (rows "
                 "of the validated input are views of the caller's array)", floor=1)
+    report.rule("R13.7", "a stream strategy owns the samples of its history windows: what `update` (and the helpers it hands the "
+                "candidates to) appends / extends into a window attribute is a copy of the candidate rows - the rows of the "
+                "validated `candidates` are views of the caller's array, and a caller that re-uses its chunk buffer would "
+                "rewrite the remembered samples (the history then is no function of the samples that were given)", floor=2)
+    check_stream_windows_own_samples(p, report)
     report.rule("R13.5", "an attribute that fit stores on some path it stores on every path (loops are assumed to run "
                 "at least once; lazily created caches under `not hasattr` excepted): otherwise the value of an "
                 "earlier fit survives a later fit that takes the other path (weights_ of a weighted fit)", floor=10)
@@ -301,3 +306,117 @@ def check_store_on_every_path(p, report, ents, rule="R13.5"):
         for a, st in bad:
             report.add(rule, ent, f"self.{a} stored on some paths only: `{norm_stmt(st, 60)}`", f"{f.file}:{st.lineno}", False,
                        detail=f"on the other paths self.{a} keeps the value of an earlier fit")
+
+
+def _copy_expr(e, fnode, params):
+    if isinstance(e, ast.Call):
+        cn = (_c01.callname(e) or "").split(".")[-1]
+        if cn in ("array", "copy", "deepcopy", "float", "int", "tolist") and not any(
+                k.arg == "copy" and isinstance(k.value, ast.Constant) and k.value.value is False for k in e.keywords):
+            return True
+        if cn == "list" and e.args and isinstance(e.args[0], (ast.ListComp, ast.GeneratorExp)):
+            return _copy_expr(e.args[0].elt, fnode, params)
+    if isinstance(e, (ast.ListComp, ast.GeneratorExp)):
+        return _copy_expr(e.elt, fnode, params)
+    if isinstance(e, (ast.List, ast.Tuple)):
+        return bool(e.elts) and all(_copy_expr(x, fnode, params) for x in e.elts)
+    if isinstance(e, ast.Name):
+        defs = [d.value for d in ast.walk(fnode) if isinstance(d, ast.Assign)
+                and any(isinstance(t, ast.Name) and t.id == e.id for t in d.targets)]
+        return bool(defs) and e.id not in params and all(_copy_expr(d, fnode, params) for d in defs)
+    return False
+
+
+def check_stream_windows_own_samples(p, report):
+    n_sites = 0
+    seen = set()
+
+    def data_names(f, seeds):
+        """names that hold (rows of / lists of rows of) the data parameter(s) `seeds`, without a copy in between"""
+        params = set(f.all_param_names())
+        out = set(seeds)
+        for _ in range(4):
+            for n in ast.walk(f.node):
+                if isinstance(n, (ast.For, ast.comprehension)) and (names_in_(n.iter) & out):
+                    out |= {x.id for x in ast.walk(n.target) if isinstance(x, ast.Name)}
+                if isinstance(n, ast.Assign) and not _copy_expr(n.value, f.node, params):
+                    v = n.value
+                    while isinstance(v, ast.Call) and (_c01.callname(v) or "").split(".")[-1] in (
+                            "asarray", "check_array", "atleast_2d", "reshape", "ravel", "zip", "enumerate", "list"):
+                        if v.args:
+                            v = v.args[0]
+                        elif isinstance(v.func, ast.Attribute):
+                            v = v.func.value
+                        else:
+                            break
+                    if not (isinstance(v, (ast.Name, ast.Subscript, ast.List, ast.Tuple)) and (names_in_(v) & out)):
+                        continue
+                    for t in n.targets:
+                        for x in (t.elts if isinstance(t, (ast.Tuple, ast.List)) else [t]):
+                            if isinstance(x, ast.Name):
+                                out.add(x.id)
+        return out
+
+    def visit(ci, f, seeds, depth):
+        nonlocal n_sites
+        key = (f.qual, tuple(sorted(seeds)))
+        if key in seen or depth > 2:
+            return
+        seen.add(key)
+        params = set(f.all_param_names())
+        dn = data_names(f, seeds)
+        for c in ast.walk(f.node):
+            if not isinstance(c, ast.Call) or not isinstance(c.func, ast.Attribute):
+                continue
+            # self.<window>.append(E) / extend(E)
+            if c.func.attr in ("append", "extend", "appendleft") and isinstance(c.func.value, ast.Attribute) \
+                    and isinstance(c.func.value.value, ast.Name) and c.func.value.value.id == "self" and c.args:
+                a0 = c.args[0]
+                core = a0
+                while isinstance(core, ast.Call) and (_c01.callname(core) or "").split(".")[-1] in (
+                        "asarray", "check_array", "atleast_2d", "reshape", "ravel", "list"):
+                    core = core.args[0] if core.args else (core.func.value if isinstance(core.func, ast.Attribute) else core)
+                    if not isinstance(core, (ast.Call, ast.Name, ast.Subscript, ast.List, ast.Tuple)):
+                        break
+                if not _copy_expr(a0, f.node, params) and not (
+                        isinstance(core, (ast.Name, ast.Subscript, ast.List, ast.Tuple)) and (names_in_(core) & dn)):
+                    continue
+                if not (names_in_(a0) & dn):
+                    continue
+                n_sites += 1
+                ok = _copy_expr(a0, f.node, params)
+                report.add("R13.7", f.qual, f"`{norm_stmt(c, 60)}` stores copies of the samples", f"{f.file}:{c.lineno}", ok,
+                           detail="explicit copy" if ok else
+                           f"`{ast.unparse(a0)[:40]}` is (a row view of) the caller's candidates array: re-using that buffer for the "
+                           f"next chunk rewrites the samples remembered in self.{c.func.value.attr}")
+            # self.helper(<data>) : follow the data into the helper
+            if isinstance(c.func.value, ast.Name) and c.func.value.id == "self":
+                h = p.find_method(ci, c.func.attr)
+                if h is None or h is f:
+                    continue
+                hp = [a for a in h.params() if a != "self"]
+                seeds_h = set()
+                for i, a in enumerate(c.args):
+                    if i < len(hp) and (names_in_(a) & dn) and not _copy_expr(a, f.node, params):
+                        seeds_h.add(hp[i])
+                for k in c.keywords:
+                    if k.arg in hp and (names_in_(k.value) & dn) and not _copy_expr(k.value, f.node, params):
+                        seeds_h.add(k.arg)
+                if seeds_h:
+                    visit(ci, h, seeds_h, depth + 1)
+
+    for ci in sorted(p.classes.values(), key=lambda c: c.name):
+        if "/tests/" in ci.file or not ci.file.startswith("skactiveml/stream/") or "/budgetmanager/" in ci.file:
+            continue
+        f = ci.methods.get("update")
+        if f is None:
+            continue
+        ps = [a for a in f.params() if a != "self"]
+        if not ps:
+            continue
+        visit(ci, f, {ps[0]}, 0)
+    report.analysed["window_stores_of_candidate_rows"] = n_sites
+
+
+def names_in_(e):
+    return {x.id for x in ast.walk(e) if isinstance(x, ast.Name)}
